@@ -197,13 +197,32 @@ type c07RegCase struct {
 	Seq []int `json:"sequence"` // indices into the instance pool
 }
 
+// zero-size components of different types share one address (runtime.zerobase); a struct and its
+// first embedded field share one address too. Distinct components nevertheless.
+type c07ZA struct{}
+
+func (*c07ZA) Naming() string { return "z" }
+
+type c07ZB struct{}
+
+func (*c07ZB) Naming() string { return "z" }
+
+type c07Inner struct{ X int }
+
+func (*c07Inner) Naming() string { return "oi" }
+
+type c07Outer struct{ c07Inner }
+
 func c07Pool() []any {
+	outer := &c07Outer{}
 	return []any{
 		scen.BuildInst(scen.Inst{Typ: "TA", Name: "x"}, 0),
 		scen.BuildInst(scen.Inst{Typ: "TB", Name: "x"}, 1),                    // custom names collide
 		scen.BuildInst(scen.Inst{Typ: "TD"}, 2),                               // default name
 		scen.BuildInst(scen.Inst{Typ: "TA", Name: scen.DefaultName("TD")}, 3), // custom = another type's default name
 		scen.BuildInst(scen.Inst{Typ: "TD"}, 4),                               // second default-named instance of one type
+		&c07ZA{}, &c07ZB{},                                                    // same address, same name, different types
+		outer, &outer.c07Inner, // same address, same (promoted) name, different types
 	}
 }
 
@@ -221,7 +240,7 @@ func c07Reg(c *core.Ctx) {
 			if len(cur) == maxLen {
 				return true
 			}
-			for i := 0; i < 5; i++ {
+			for i := 0; i < 9; i++ {
 				if !rec(append(cur[:len(cur):len(cur)], i)) {
 					return false
 				}
@@ -230,7 +249,7 @@ func c07Reg(c *core.Ctx) {
 		}
 		rec(nil)
 	}
-	regName := []string{"x", "x", scen.DefaultName("TD"), scen.DefaultName("TD"), scen.DefaultName("TD")}
+	regName := []string{"x", "x", scen.DefaultName("TD"), scen.DefaultName("TD"), scen.DefaultName("TD"), "z", "z", "oi", "oi"}
 	Cases(c, gen, func(c *core.Ctx, cs c07RegCase) {
 		pool := c07Pool()
 		reg := support.NewRegistry()
@@ -242,6 +261,12 @@ func c07Reg(c *core.Ctx) {
 			}
 			if scen.Protect(func() { reg.RegisterSingleton(pool[i]) }) != "" {
 				panics++
+			} else if got, err := reg.GetSingleton(regName[i]); err != nil || got != pool[i] {
+				// a registration that returned normally must have registered the component: otherwise
+				// two distinct components were both "registered" under one name
+				c.Report("C07/registration/"+core.Hash(cs.Seq), "duplicate-accepted",
+					fmt.Sprintf("sequence %v: registering a distinct component (%T) under the taken name %q returned normally; the name still maps to %T", cs.Seq, pool[i], regName[i], got), cs)
+				return
 			}
 			c.S.Transitions++
 		}
